@@ -220,13 +220,22 @@ namespace
     static_assert(output_buf_size <= std::numeric_limits<decltype(stream.avail_out)>::max());
 
     zerr = Z_OK;
-    while (zerr != Z_STREAM_END)
+    // A gzip file is a sequence of one or more members.  member_ended
+    // is true when we have just consumed the end of a member; if more
+    // input follows, it is another member.
+    bool member_ended = false;
+    for (;;)
       {
 	errno = 0;
 	auto got = stream.avail_in = static_cast<avail_in_type>(fread(input_buffer, 1, input_buf_size, f));
 	if (ferror(f))
 	  {
 	    throw DFS::FileIOError(name, errno);
+	  }
+	if (got == 0 && member_ended)
+	  {
+	    // Physical end-of-file immediately after a complete member.
+	    break;
 	  }
 	// We rely on zlib to detect the end of the input stream.  If
 	// there is no more input here we will pass avail_in=0 to
@@ -240,6 +249,12 @@ namespace
 	stream.next_in = input_buffer;
 	do  // decompress some data from the input buffer.
 	  {
+	    if (member_ended)
+	      {
+		// Start decompressing the next member.
+		check_zlib_error_code(inflateReset(&stream));
+		member_ended = false;
+	      }
 	    stream.next_out = output_buffer;
 	    stream.avail_out = output_buf_size;
 	    zerr = inflate(&stream, Z_NO_FLUSH);
@@ -253,10 +268,12 @@ namespace
 		// Want more input data.
 		break;
 	      }
-	    if (zerr != Z_STREAM_END)
+	    if (zerr == Z_STREAM_END)
+	      member_ended = true;
+	    else
 	      check_zlib_error_code(zerr);
 	  }
-	while (stream.avail_out == 0);
+	while (member_ended ? (stream.avail_in > 0) : (stream.avail_out == 0));
       }
   }
 
